@@ -80,6 +80,11 @@ impl<'a, T: Transport> Transferrer<'a, T> {
             return self.handle_symlink(source, dest_path).await;
         }
 
+        // A file or directory is never created THROUGH a symlink that sits in its place (left by an
+        // earlier run when the source entry still was a link): writing through it would land in the
+        // link's referent -- possibly inside the source tree
+        Self::unlink_if_symlink(dest_path)?;
+
         if source.is_dir {
             self.create_directory(dest_path).await?;
             Ok(None)
@@ -264,6 +269,13 @@ impl<'a, T: Transport> Transferrer<'a, T> {
         }
 
         if !source.is_dir {
+            // The destination entry is a symlink (the source entry used to be one): replace it, never
+            // write through it
+            if matches!(std::fs::symlink_metadata(dest_path), Ok(ref m) if m.file_type().is_symlink())
+            {
+                return self.create(source, dest_path).await;
+            }
+
             // Use delta sync for updates
             let result = self
                 .transport
@@ -299,6 +311,15 @@ impl<'a, T: Transport> Transferrer<'a, T> {
 
         self.transport.remove(dest_path, is_dir).await?;
         tracing::info!("Deleted: {}", dest_path.display());
+        Ok(())
+    }
+
+    /// Remove `path` if it is a symbolic link on the local file system (a remote destination has no
+    /// local entry there: nothing happens)
+    fn unlink_if_symlink(path: &Path) -> Result<()> {
+        if matches!(std::fs::symlink_metadata(path), Ok(ref m) if m.file_type().is_symlink()) {
+            std::fs::remove_file(path)?;
+        }
         Ok(())
     }
 
